@@ -38,6 +38,7 @@ ASSUMPTIONS = [
   'SimDisk/SimGFile semantics match os / tensorflow.io.gfile on the operations flax uses (differentially tested by sim/selftests.py against a real directory)',
   'two spellings of one number and prefixes that are prefixes of each other are not generated (corners the property does not pin down)',
   'with overwrite=True a crash in the middle of removing several newer steps may leave an intermediate newer step as latest; the oracle then requires latest to be a complete previously committed step (narrow reading, see DESIGN.md)',
+  'prefixes containing glob metacharacters are generated for the legacy back-end only (tensorstore cannot open a directory whose name contains "["; that is below flax)',
   'save_checkpoint_multiprocess is covered on one host without multi-process arrays only; multi-host arrays, GCS paths, Orbax AsyncCheckpointer are not covered',
 ]
 PROBES = ['legacy_checkpoint_in_orbax_dir', 'orbax_debris_in_legacy_dir', 'step0_with_keep_every', 'async_save_failed_with_ioerror', 'entry_multiprocess', 'legacy_debris_in_orbax_dir', 'source_mutated_after_async_save', 'restore_by_path', 'orbax_histories', 'leftover_tmp_after_crash', 'crash_after_commit', 'crash_before_commit', 'retry_rejected_committed', 'overwrite_removed_newer', 'keep_every_retained', 'chunked_leaf', 'async_latest_in_flight', 'sweep_points', 'policy_error_expected', 'torn_write', 'ioerror_runs']
@@ -140,6 +141,10 @@ def generate(rs, tier):
   )
   if g.random() < float(__import__('os').environ.get('VERIF_ORBAX_SHARE', ORBAX_SHARE)):  # env override: diagnostics only
     knobs.update(backend='orbax', io_mode='DEFAULT', asyn=False, chunk=2**30)
+    if knobs['prefix'] in GLOB_PREFIXES:
+      # tensorstore cannot open a path containing '[' (restore of a step that flax lists and retains correctly fails inside
+      # Orbax with NOT_FOUND): outside flax, so such prefixes are used with the legacy back-end only
+      knobs['prefix'] = 'checkpoint_'
     asyn = False
     # the directory may have been used with the legacy back-end before: an interrupted legacy save leaves <prefix>tmp
     knobs['legacy_debris'] = g.random() < 0.3
